@@ -419,6 +419,8 @@ def encrypt(protected_text: bytes, protected: dict, plaintext: bytes, recipients
     returns the per-recipient additions for the caller to have placed.  To keep things simple the caller passes
     `place`: 'protected' additions must be pre-merged: use prepare_additions() first."""
     pseg = b64.encode(protected_text)
+    if aad == b"":
+        aad = None
     aad_full = pseg.encode("ascii") + (b"." + b64.encode(aad).encode("ascii") if aad is not None else b"")
     m = plaintext
     if protected.get("zip") == "DEF":
@@ -510,7 +512,12 @@ def decrypt_parts(pseg: str, unprotected, recipients: list, iv_s, ct_s, tag_s, a
     aad_full = pseg.encode("ascii")
     if aad_s is not None:
         _dec("aad", aad_s, strict)
-        aad_full += b"." + aad_s.encode("ascii")
+        if aad_s == "":
+            # RFC 7516 7.2.1: the member MUST be absent when the AAD is empty; leniently treated as absent
+            if strict:
+                raise Reject("empty aad member")
+        else:
+            aad_full += b"." + aad_s.encode("ascii")
     enc = protected.get("enc") if not (unprotected and "enc" in unprotected) else unprotected.get("enc")
     if not recipients:
         raise Reject("no recipients")
